@@ -1,0 +1,41 @@
+//go:build verif && linux
+
+package ptracer
+
+import (
+	unix "golang.org/x/sys/unix"
+
+	"github.com/criyle/go-sandbox/pkg/verifhook"
+)
+
+// verification hooks (see pkg/verifhook): one event per step of the trace loop,
+// emitted after the step; named points where a harness may hold the tracer.
+
+func verifEvent(name string, kv ...any) { verifhook.Event("tracer", name, kv...) }
+
+func verifPoint(name string) { verifhook.Point(name) }
+
+// verifWait records the result of one wait4 of the trace loop.
+func verifWait(pid int, err error, wstatus uint32, execved bool) {
+	ws := unix.WaitStatus(wstatus)
+	kind, sig, code, cause := "other", 0, 0, 0
+	switch {
+	case err != nil:
+		kind = "error"
+	case ws.Exited():
+		kind, code = "exited", ws.ExitStatus()
+	case ws.Signaled():
+		kind, sig = "signaled", int(ws.Signal())
+	case ws.Stopped():
+		kind, sig, cause = "stopped", int(ws.StopSignal()), ws.TrapCause()
+	}
+	verifhook.Event("tracer", "wait", "pid", pid, "kind", kind, "sig", sig, "code", code,
+		"cause", cause, "execved", execved, "err", verifErr(err))
+}
+
+func verifErr(err error) string {
+	if err == nil {
+		return ""
+	}
+	return err.Error()
+}
